@@ -220,7 +220,9 @@ def run_check(
     if new:
         rdir = os.path.join(evid_dir, "replay")
         os.makedirs(rdir, exist_ok=True)
-        for i, o in enumerate(new):
+        if len(new) > 8:
+            print(f"  ({len(new)} refuted obligations; the first 8 are listed, all are in the evidence file)")
+        for i, o in enumerate(new[:8]):
             rp = os.path.join(rdir, f"{pid}-{i}.json")
             with open(rp, "w") as fh:
                 json.dump(
@@ -228,7 +230,7 @@ def run_check(
                     fh,
                     indent=1,
                 )
-            print(f"  REFUTED {o.rule} [{o.instance}] at {o.construct}: {o.detail}")
+            print(f"  REFUTED {o.rule} [{o.instance}] at {o.construct}: {o.detail[:900]}")
             print(f"VIOLATION property={pid} replay={rp}")
         return 1
     return 0
